@@ -17,7 +17,7 @@ LIBC_OK = {'malloc', 'free', 'calloc', 'abort', 'exit', '__assert_fail'}
 
 
 class Group:
-    def __init__(self, name, unit, harness, entry=None, enforce=None, replace=(), loop_contracts=False, unwind=None,
+    def __init__(self, name, unit=None, harness=None, entry=None, enforce=None, replace=(), loop_contracts=False, unwind=None,
                  backend='sat', timeout=600, kind='unbounded', bound=None, clause='', defines=(), checks=None,
                  expect='pass', replay=None, tier='quick', extra=(), canary=True, unwindset=(), object_bits=None,
                  inputs=(), nondet_static=False, no_standard_checks=False, unwind_by=None, unwind_claims=(), skeleton=False):
